@@ -123,6 +123,16 @@ def pool():
     add('rich-xta', 'ok', entry='xta-buffer', builder='document', input=RICH)
     add('rich-xta-builder-only', 'ok', entry='xta-buffer', builder='builder-only', input=RICH)
     add('rich-declarations-part', 'ok', entry='part', part=1, builder='builder-only', input=RICH[:RICH.index('process P')])
+    # calls made against the document that an earlier 'xml-valid' step of the same history built (a client parses the model once and
+    # then parses queries and expressions against the document it kept); their fresh reference is the pair [xml-valid, step]
+    add('kept:query-safety', 'ok', entry='prop-buffer', builder='tiga', input='A[] Q.L0 imply x >= 0', reuse_of='xml-valid')
+    add('kept:query-two-lines', 'ok', entry='prop-buffer', builder='tiga', input='E<> Q.L1\nA[] i <= 2', reuse_of='xml-valid')
+    add('kept:query-FILE', 'ok', entry='prop-file', builder='tiga', input='E<> R.L1 && i == 2\n', reuse_of='xml-valid')
+    add('kept:query-syntax-error', 'diag', entry='prop-buffer', builder='tiga', input='A[] ( Q.L0', reuse_of='xml-valid')
+    add('kept:query-unknown-identifier', 'diag', entry='prop-buffer', builder='tiga', input='E<> nosuch.L1', reuse_of='xml-valid')
+    add('kept:query-unterminated-comment', 'poison', entry='prop-buffer', builder='tiga', input='E<> Q.L1 /* open', reuse_of='xml-valid')
+    add('kept:part-expression', 'ok', entry='part', part=12, builder='expression', input='i + f(2) * N', reuse_of='xml-valid')
+    add('kept:part-unterminated-comment', 'poison', entry='part', part=12, builder='expression', input='i + /* 1', reuse_of='xml-valid')
     add('xml-empty-guard', 'diag', entry='xml-buffer', builder='document', input=xml_with(guard=' '))
     return P
 
@@ -155,13 +165,13 @@ RULE = ('histories over a pool of %d parsing steps: whole models through parse_X
         'steps: unterminated comments (declaration block, label, XTA via buffer and FILE*, single expression), PrettyPrinter on '
         'a syntax error (exception out of the grammar), XML structural errors, non-XML and truncated input, missing file, '
         'import of a missing library (sets errno), a label without kind, sat: on a non-LSC symbol; queries through '
-        'parseProperty (buffer and FILE*) and single-block parses (expression, declaration; valid, faulty, empty). A history is '
+        'parseProperty (buffer and FILE*) and single-block parses (expression, declaration; valid, faulty, empty), also against a document that an earlier step of the history built and the client kept. A history is '
         'executed in ONE process by the oracle server; every step is also executed alone in a child forked from the pristine '
         'server (fresh process). Additionally the global position counter may be seeded before a step so that the step crosses '
         '2^31-1 (the "unknown position" sentinel) or 2^32 at offsets 1, 3, 40, 400, 4000 inside its input - the stand-in for '
         'gigabytes of earlier input. Compared per step: return value, exception class, errors and warnings with message, '
         'context, path, line and column (start and end), canonical document dump, supported-methods verdict, pretty-printer '
-        'output, parsed query / expression trees. All ordered (prefix, probe) pairs are enumerated in both tiers, every '
+        'output, parsed query / expression trees. All ordered (prefix, probe) pairs and all [model, step, call against the kept document] triples are enumerated in both tiers, every '
         '(seed, offset, probe) triple too; a rich XTA text (typedefs, scalar sets, type-indexed and multi-dimensional arrays, structs, functions with every statement form, a process with state lists, branchpoint, commit/urgent, select/guard/sync/assign/probability transitions) cut at every (quick: every second) token position, cut and followed by recovery tokens, with one token deleted, with a stray opening bracket, as a declaration block and through the pretty printer, each followed by a rich probe; Hypothesis draws histories of length 3..8 with seeds. Non-trivial: the history '
         'contains a poisoning step, a diagnostic-producing step or a counter seed before its last step; distinct = distinct '
         'sequences of step names.')
@@ -201,9 +211,12 @@ class Exec:
         self.pool = pool_
         self.fresh = {}
 
-    def step(self, name, seedpos=None):
+    def step(self, name, seedpos=None, reuse=None):
         kind, st_ = self.pool[name]
         d = dict(st_)
+        d.pop('reuse_of', None)
+        if reuse is not None:
+            d['reuse'] = reuse
         d['dump'] = 'doc,diag,methods,inv,exprs' if d['builder'] in ('document', 'builder-only') else 'diag,exprs'
         if d['entry'] == 'xml-file-missing':
             d['entry'] = 'xml-file'
@@ -214,21 +227,45 @@ class Exec:
 
     def fresh_record(self, name):
         if name not in self.fresh:
-            r = self.orc.request([self.step(name)])
-            self.fresh[name] = None if 'crash' in r else record(r['steps'][0])
+            need = self.pool[name][1].get('reuse_of')
+            steps = [self.step(need), self.step(name, reuse=0)] if need else [self.step(name)]
+            r = self.orc.request(steps)
+            self.fresh[name] = None if 'crash' in r else record(r['steps'][-1])
             if 'crash' in r:
                 self.fresh[name] = {'crash': oracle.crash_descriptor(r['crash'])['kind']}
         return self.fresh[name]
 
     def run_history(self, hist):
         """hist: list of (name, seedpos or None). -> list of records (or None on crash)"""
-        r = self.orc.request([self.step(n, sp) for n, sp in hist])
+        steps = []
+        for k, (n, sp) in enumerate(hist):
+            need = self.pool[n][1].get('reuse_of')
+            reuse = None
+            if need:
+                prev = [j for j in range(k) if hist[j][0] == need]
+                reuse = prev[-1]       # normalise() guarantees that the needed step precedes
+            steps.append(self.step(n, sp, reuse))
+        r = self.orc.request(steps)
         if 'crash' in r:
             return None, oracle.crash_descriptor(r['crash'])
         return [record(s) for s in r['steps']], None
 
 
+def normalise(ex, hist):
+    """a step that works on a kept document is dropped unless the step that builds the document precedes it"""
+    out = []
+    for n, sp in hist:
+        need = ex.pool[n][1].get('reuse_of')
+        if need and not any(m == need for m, _ in out):
+            continue
+        out.append((n, sp))
+    return out
+
+
 def check_history(chk, stats, ex, hist, classes):
+    hist = normalise(ex, hist)
+    if not hist:
+        return None
     names = [n for n, _ in hist]
     recs, crash = ex.run_history(hist)
     poisoned = any(ex.pool[n][0] in ('poison', 'diag') for n, _ in hist[:-1]) or any(sp is not None for _, sp in hist)
@@ -299,6 +336,15 @@ def worker(chk, wi, nw):
         if v:
             stats.violations.append({'descriptor': v[0], 'what': v[1], 'case': v[2]})
 
+    # a kept document: [xml-valid, anything, call against the kept document]
+    kept = [n for n in names if n.startswith('kept:')]
+    trip2 = [(mid, kp) for mid in names for kp in kept]
+    for k, (mid, kp) in enumerate(trip2):
+        if k % nw != wi:
+            continue
+        v = handle(check_history(chk, stats, ex, [('xml-valid', None), (mid, None), (kp, None)], ['enum:kept-document', 'prefix-kind:' + P[mid][0], 'probe:' + kp]))
+        if v:
+            stats.violations.append({'descriptor': v[0], 'what': v[1], 'case': v[2]})
     # rich poison family: (damaged rich text, rich probe)
     rp = rich_poisons(1 if chk.tier == 'thorough' else 2)
     for name, stp in rp:
